@@ -29,6 +29,12 @@ def load_known():
 def write_evidence(pid, ev):
     d = os.path.join(ROOT, "evidence") if not build.ALT else os.path.join(os.path.dirname(build.HARNESS), "evidence")
     os.makedirs(d, exist_ok=True)
+    cov = ev.get("coverage", {})
+    if cov.get("discharged") == 0:
+        # a run whose proofs did not check discharged nothing: the proof-level keys would claim otherwise,
+        # so the file falls back to the exploration-style counts of the correspondence run
+        cov["proof_obligations_not_discharged"] = cov.pop("obligations", 0)
+        cov.pop("discharged")
     with open(os.path.join(d, pid + ".json"), "w") as f:
         json.dump(ev, f, indent=1)
 
